@@ -23,7 +23,8 @@ PROPS = {
                        "failing path stores length 0 and returns NULL; in the six hash lookups an ID is returned only under a successful full "
                        "comparison, each probe is preceded by the occupied-cell test, the probe loop is bounded by the table size; XBW accepts only "
                        "under the terminator-label test; pattern bytes index occ[] only after the alphabet test (reaching definitions on the CFG); "
-                       "a helper whose result callers test against NORESULT can return it.",
+                       "a helper whose result callers test against NORESULT can return it. "
+                       "Added later: early scan exit, byte-indexed tables have 256 entries on every creation path, the all-ones sentinel is produced at the return width, comparators declare a match only at the end of the pattern, purity of locate/extract.",
         "decided": ["ID range guard dominates every memory-reaching use of id, incl. 0 and SIZE_MAX (R-IDGUARD)",
                     "no acceptance without comparison; empty cell ends the probe; bounded probe loop; XBW terminator test (R-ACCEPT)",
                     "alphabet test before occ[] for every pattern byte, in the function or by construction at every call site (R-ALPHAGUARD)",
@@ -40,7 +41,8 @@ PROPS = {
         "rules": ["R-NOTFOUND", "R-WINDOW", "R-ALPHAGUARD", "R-BUCKET", "R-FMMAP", "R-SCANEXIT", "R-PURE-PREFIX", "R-CMPSIGN", "R-BSEARCH", "R-SCANSIGN", "R-BISECT", "R-IDRANGE", "R-EXTENT-FM", "R-CMPEND"],
         "explanation": "The structural half of prefix search: the not-found protocol of the in-bucket search helpers (all five front-coding kinds), "
                        "agreement between the located ID range and the window handed to the string iterator under that iterator class's own "
-                       "first/end protocol (symbolic count = right-left+1, incl. the empty range), alphabet guard for absent bytes.",
+                       "first/end protocol (symbolic count = right-left+1, incl. the empty range), alphabet guard for absent bytes. "
+                       "Added later: early scan exit, comparator orientation / search direction / bisection interval coverage, match-only-at-end-of-pattern, the contiguous ID iterator's range (incl. the empty result), FM-index table extents in built and loaded objects, purity of the prefix operations.",
         "decided": ["searchPrefix-style helpers can report not-found where callers test for it (R-NOTFOUND)",
                     "extractPrefix yields exactly right-left+1 strings for the range locatePrefix computes; extractTable numElements (R-WINDOW)",
                     "bytes occurring in no member cannot index occ[] (R-ALPHAGUARD)",
@@ -58,7 +60,8 @@ PROPS = {
         "rules": ["R-DEDUP", "R-DUPSKIP", "R-SAMPLECOUNT", "R-STUB", "R-ALPHAGUARD", "R-PURE-SUBSTR", "R-EXTENT-FM", "R-STALESIZE", "R-SCANLEN"],
         "explanation": "Only the de-duplication protocol and the configuration guard are decided: the occurrence array is sorted over exactly [a,a+n) "
                        "and carries the 0 sentinel at a[n] before a duplicate-skipping iterator is created, is allocated with n+1 entries, and the "
-                       "BWTsampling==0 configuration is an effect-free stub.",
+                       "BWTsampling==0 configuration is an effect-free stub. "
+                       "Added later: sibling agreement of the duplicate-skipping loops, sample-count agreement across allocation/save/load/conversion, stale container-size bounds, FM-index table extents and scan length, purity of the substring operations.",
         "decided": ["sort-before-dedup over the exact range, sentinel store, allocation extent matches+1 (R-DEDUP)",
                     "BWTsampling==0 guard first, stub region returns null (R-STUB)", "absent bytes are rejected before indexing (R-ALPHAGUARD)",
                     "locateSubstr/extractSubstr and the iterators they return write no dictionary state, static or borrowed memory (R-PURE-SUBSTR)",
@@ -74,7 +77,8 @@ PROPS = {
                        "creation paths, every field read by a query on an object of a class that path instantiates (rapid type analysis, virtual "
                        "calls resolved to final overriders of instantiated classes) is assigned by code reachable from that creation path, pointer "
                        "fields are not left NULL where operations dereference them unconditionally, and byte-indexed tables are filled over their "
-                       "whole extent. Image/loader agreement (R-MIRROR) carries the state across save/load.",
+                       "whole extent. Image/loader agreement (R-MIRROR) carries the state across save/load. "
+                       "Added after the seeded-change rounds: sign-polarity analysis of the three-way comparators and direction of every binary search / in-bucket scan, unsigned byte order, per-operation purity of locate/extract, block<->slot correspondence of the parallel build, the clamped bucket size, the chunk-scan start state, and scan-length agreement for the FM-index alphabet.",
         "decided": ["built/loaded state parity for all 13 kinds x 2 creation paths (R-STATE)", "full initialisation of byte-indexed tables (R-INITCOVER)",
                     "image carries every field load needs (R-MIRROR)", "extract range guard (R-IDGUARD)",
                     "insert and lookup walk the same probe sequence in all 8 double-hashing walks (R-PROBE)",
@@ -143,7 +147,8 @@ PROPS = {
         "rules": ["R-BUCKET", "R-FMMAP", "R-NOSORT", "R-BYTEORDER", "R-PURE-RANK", "R-CLAMP", "R-CMPSIGN", "R-BSEARCH", "R-SCANSIGN", "R-CMPEND", "R-SCANLEN"],
         "explanation": "Order preservation decided structurally: rank operations are the identity / delegate to extract in the seven order-preserving "
                        "kinds, ID arithmetic is consistent with consuming the input in order, FM-index row mapping agrees, and no builder of an "
-                       "order-preserving kind reorders its input (no sort reachable on their build paths).",
+                       "order-preserving kind reorders its input (no sort reachable on their build paths). "
+                       "Added later: unsigned byte order, comparator orientation and search direction (sign-polarity analysis), clamp semantics, match-only-at-end-of-pattern, purity of the rank operations, FM-index scan length.",
         "decided": ["locateRank is the identity and extractRank delegates to extract (R-BUCKET rank part)", "bucket arithmetic (R-BUCKET)",
                     "FM-index row <-> ID mapping (R-FMMAP)", "no sort on the build path of order-preserving kinds (R-NOSORT)", "comparators order bytes as unsigned, in int (R-BYTEORDER)",
                     "locateRank/extractRank keep no state between calls (R-PURE-RANK)",
@@ -161,7 +166,8 @@ PROPS = {
                        "writer/reader agreement, allocation extents, tag dispatch, save purity and element-to-field restoration for the bundled classes "
                        "the dictionaries persist and for the variants named in the property (BitSequenceRG/RRR/SDArray/DArray/375, WaveletTree, "
                        "WaveletTreeNoptrs, their nodes, coders and mappers). The core of the property - rank/select/access equal their definitions - "
-                       "is value-level and NOT decided.",
+                       "is value-level and NOT decided. "
+                       "Added later: const query methods are effect-free (MOD summaries), non-image fields are related to image values through every constructor's definition, the RRR table's reference count discipline, no narrowing writes.",
         "decided": ["save/load element-by-element agreement of every bundled class in the cone (R-MIRROR)", "allocation = saved extent (R-EXTENT)",
                     "family dispatchers have an arm for every persisted class and the right tag (R-DISPATCH)", "save writes nothing but the stream (R-SAVEPURE)",
                     "const query methods of the bundled structures write no object state and no global, so an answer cannot depend on earlier queries (R-CONSTPURE)",
@@ -175,7 +181,8 @@ PROPS = {
         "rules": ["R-RPZERO", "R-RPWIDTH", "R-RPGAP", "R-MIRROR", "R-NARROW", "R-BACKPTR"],
         "explanation": "Structural conditions of the Re-Pair contract: who may raise a pair frequency and under which guard (terminator exclusion), "
                        "purge-before-extract on every path, identifier width computed as bits(rules+terminals) at every sizing site, and agreement of the "
-                       "gap-pointer encoding between the compressor (writer) and the five compaction loops (readers). The grammar's image is covered by R-MIRROR.",
+                       "gap-pointer encoding between the compressor (writer) and the five compaction loops (readers). The grammar's image is covered by R-MIRROR. "
+                       "Added later: back-pointer pairing in the compressor's hash table and frequency arrays, no narrowing writes of grammar fields, writer early returns.",
         "decided": ["no rule can contain symbol 0: guard dominates the only increment, purge precedes every extraction (R-RPZERO)",
                     "identifier storage is sized with bits(rules+terminals) at every site (R-RPWIDTH)",
                     "gap pointers: writer -t-1, readers -(v+1), loops advance (R-RPGAP)", "grammar survives save/load structurally (R-MIRROR)",
@@ -189,7 +196,8 @@ PROPS = {
         "explanation": "Iterator protocol rules: every next() stores the length on every path to a non-null return and advances a field that "
                        "hasNext() reads (or consumes its work list) on every path; windows given at every extractTable/extractPrefix site match "
                        "the class protocol; duplicate-skipping iterators never read past their array (sentinel + extent); iterator steps write "
-                       "only iterator-owned memory.",
+                       "only iterator-owned memory. "
+                       "Added later: duplicate-skip loops, FM row mapping of the iterators, the contiguous ID iterator's range, stale size bounds, the chunk-scan start state.",
         "decided": ["length reported and cursor advanced on every path (R-OUTLEN)", "window = numElements / right-left+1 at every construction site (R-WINDOW)",
                     "sentinel and extent for duplicate skipping (R-DEDUP)", "XBW::extractTable is an effect-free stub (R-STUB)",
                     "iterator steps do not write borrowed dictionary storage (R-QUERYPURE)",
